@@ -7,6 +7,25 @@ TECH = ("bounded symbolic execution of the real Python code (symx: proxy values 
         "bounds; the negated property is a z3 query per path; counterexamples replayed concretely on the real code)")
 
 CLAIMED = {
+    "C01": ("Bounded symbolic model checking of ITSConstruction.construct/ITSGraph and its_decompose on the real code: "
+            "reactant and product graph on a shared node set with every label and every bond order of both sides "
+            "symbolic (presence = order > 0); one z3 query per path decides the labelled-union clause and the "
+            "decomposition round trip for all label values at once.",
+            "Bounds: n<=3 atoms with all H-side insertion orders and edge orientations and all flag combinations, n=4 in "
+            "reduced form (quick) / all flags (thorough). SMILES-level clauses (rsmi_to_its/its_to_rsmi) need RDKit "
+            "and are outside."),
+    "C02": ("Bounded symbolic model checking of get_rc and RadiusExpand.extract_k on the real code: centre membership is "
+            "decided per path against the formula 'order changes or H-H', idempotence, equivariance under a "
+            "solver-chosen renumbering, and radius-k contexts against concrete graph distance, induced-subgraph "
+            "equality and nesting.",
+            "Bounds: reactions on n<=3 (thorough 4) atoms through the real ITS construction; synthetic ITS graphs on all "
+            "4-node shapes, P5, P6, 5-ring (thorough: all 5-node shapes <=6 bonds, P7, 6-ring), radii 0..3."),
+    "C06": ("Bounded symbolic model checking of SubgraphSearchEngine.find_subgraph_mappings on the real VF2-based code: "
+            "host and pattern on concrete shapes with symbolic element/charge/hcount/order; for every injection the "
+            "validity formula must coincide with membership in the returned list (strategies all/comp/bt, strict "
+            "flag, max_results, threshold, pre_filter; inputs unchanged).",
+            "Bounds: hosts <=4 nodes (thorough 5 nodes <=5 bonds), patterns <=3 nodes, element {C,N}, hcount {0,1}(2), "
+            "order {1,2}, charge {0,1}; node_attrs=[element,charge], edge_attrs=[order]."),
     "C15": ("Bounded symbolic model checking of the real CRNHyperGraph: every operation code and operand of a history of "
             "<=3 (quick) / <=4 (thorough) edits is a solver variable, every feasible path is explored, and the "
             "representation invariant, frame conditions and copy/merge isolation are checked after every step against "
